@@ -36,6 +36,7 @@ import SteelVerif.C12.LemmasFuelLex
 import SteelVerif.C12.LemmasBoundary
 import SteelVerif.C12.LemmasPolar
 import SteelVerif.C12.LemmasUnderscore
+import SteelVerif.C12.Ast
 namespace SteelVerif.C12
 
 /-! ## reading is total, and every reported location lies inside the text -/
@@ -561,6 +562,24 @@ example : read t!"#(a \"b\" #\\c)" = .ok [.vec [.sym t!"a", .str t!"b", .chr 'c'
 set_option maxRecDepth 100000 in
 example : write (.list [.str t!"a\"b", .chr ' ']) = t!"(\"a\\\"b\" #\\space)" := by decide
 
+/-! ## printing a parsed program and parsing it again (task 2c)
+
+`Ast.lean`: `parseM` = the flat reader followed by the model of the parser's lowering (`lower`), `prettyM` = the
+model of `Display for ExprKind`; both are compared with the real `Parser::parse` / `Display` on generated programs
+on every run (harness / driver op `ast`), and `parse(pretty(ast)) = ast` is checked on the real code alone. -/
+
+/-- `parse_pretty_reduction`: the round trip of a program reduces to three facts about its tree `a` and a datum `d`
+    (in practice `d = datumOf a`): `d` is in the class of the datum round-trip theorem, the AST printer prints `a`
+    as the writer writes `d`, and the lowering maps `d` back to `a`.  Then `parseM (prettyM a) = [a]`.
+    PARTIAL: the three facts are NOT proved for a syntactic class of trees (that needs three inductions over the
+    nested `Ast`); instances and counter-witnesses are evaluated by the differential run (driver op `ast`), not in this file:
+    kernel evaluation of the lexer on program texts exhausted memory. -/
+theorem parse_pretty_reduction (a : Ast) (d : Datum) (hw : WF d = true) (hp : prettyM a = writeP d)
+    (hl : lower d = .ok a) : parseM (prettyM a) = .ok [a] := by
+  unfold parseM
+  rw [hp, read_writeP d hw]
+  simp only [lowerList, hl]
+
 /-! ## the full statement is false for the code that exists -/
 
 /-- K12a: the writer prints a symbol's name verbatim; `|a b|` comes back as two symbols -/
@@ -631,8 +650,16 @@ NOT carried by any theorem (covered only by the differential correspondence of c
  * **Nesting deeper than 128**: carried negatively - `write_beyond_limit` / `write_deep` say what the writer does
    (every datum at level ≥ 128 becomes `...`), `depth_guard_tight` / `counter_depth_129` that the round trip fails
    at depth 129 for well-formed data (K12d); nothing positive can hold there.
- * **"printing a parsed program and parsing it again gives the same syntax tree"** (`parse ∘ pretty` on
-   `ExprKind`): no model of `Parser::parse`'s lowering nor of the pretty printer; executed only.
+ * **"printing a parsed program and parsing it again gives the same syntax tree"**: `Ast.lean` models the lowering
+   of `Parser::parse` and `Display for ExprKind` on the fragment atoms / application / if / define / lambda / begin /
+   set! / quote / let (tied to the real parser and printer on generated programs on every run), and
+   `parse_pretty_reduction` reduces the round trip of a tree to three facts - NOT proved for a syntactic class
+   `WFAst`, and not even decided for instances in this file (missing: the
+   inductions `prettyM a = writeP (datumOf a)`, `WF (datumOf a)`, `lower (datumOf a) = a` over the nested `Ast`).
+   Outside the model: `to_pretty` (the width-60 layout; executed only), `%plain-let`, named `let`, `return!`,
+   `require`, macros, vectors / improper lists outside `quote`, dotted argument lists, curried `define`.
+   The property is FALSE on the real code for rest arguments (`(lambda x x)` is printed `(lambda (x) x)`, proposed
+   K12o), strings with `"` / `\` and identifiers that need bars (K12j): seen by the oracle run, no Lean witness.
  * **The writer of `scheme/print.scm`** (`write`/`display`/`print` implemented in Scheme with cycle labels)
    and **`read` from ports** (`reader.scm`, incremental input, `(read)` returning one datum at a time):
    `write` here is `Display for SteelVal` as reached by `(write d)` on acyclic data; cyclic/shared data with
